@@ -87,7 +87,13 @@ def check_stft(case):
             y = make_signal({"n": case["prior_n"], "kind": "noise", "seed": 5, "scale": 3.0}, x.dtype)
             if not (L // 2 + 1 <= len(y) < L):
                 call("torch module forward (earlier call)", mod, torch.from_numpy(y))
-        out = call("torch module forward", mod, torch.from_numpy(x if case.get("strided") else x.copy()))
+        if not case.get("requires_grad"):
+            out = call("torch module forward", mod, torch.from_numpy(x if case.get("strided") else x.copy()))
+    if case.get("requires_grad"):
+        # the signal is a tensor tracked by autograd (the output of a learnable front end), outside torch.no_grad():
+        # the values are the same signal
+        xt = torch.from_numpy(x.copy()).requires_grad_(True)
+        out = call("torch module forward (signal requires grad)", mod, xt).detach()
     require(isinstance(out, torch.Tensor) and out.ndim == 2, "module returned {!r}", type(out))
     got = out.numpy().astype(np.float64)
     require(
@@ -111,6 +117,8 @@ def check_stft(case):
         labels.append("energy")
     if case.get("strided"):
         labels.append("strided-input")
+    if case.get("requires_grad"):
+        labels.append("signal requires grad")
     if kal:
         labels.append("kaldi")
     if case.get("script"):
@@ -278,6 +286,7 @@ def _stft_cases(draw):
         "sig": draw(signal_specs(st.just(n), SIGNAL_KINDS + ["loud_quiet", "loud_quiet"])),
         "prec": draw(st.sampled_from(["double", "single", "single", "default"])),
         "script": draw(st.sampled_from([False] * 9 + [True])),
+        "requires_grad": draw(st.sampled_from([False, False, False, True])),
     }
 
 
